@@ -152,9 +152,9 @@ def circshift_fourier(
     out : np.ndarray
         The 128-bit complex filter frequency response, shifted by `u`
     """
-    shift %= dft_size
     if dft_size is None:
         dft_size = len(filt) + start_idx
+    shift %= dft_size
     if copy or filt.dtype != np.complex128:
         return filt * np.exp(
             -2j
